@@ -626,9 +626,14 @@ def merge_cond(pred, a, b):
     return Sym('cond', pred, fz(a), fz(b))
 
 
-def lax_cond(pred, true_fun, false_fun, *operands, **kw):
+_NO_OPERAND = object()
+
+
+def lax_cond(pred, true_fun=None, false_fun=None, *operands, operand=_NO_OPERAND, **kw):
     if kw:
-        raise Top("lax.cond keywords")
+        raise Top(f"lax.cond keywords {sorted(kw)}")
+    if operand is not _NO_OPERAND:
+        operands = operands + (operand,)        # legacy spelling of a single operand
     try:
         p = as_pred(pred) if not isinstance(pred, (bool, np.bool_)) else bool(pred)
     except Top:
@@ -937,6 +942,12 @@ def _jnp_sum_model(x, *a, **k):
     return _sum_sym(x, *a, **k)
 
 
+def _linalg_norm(x, ord=None, axis=None, keepdims=False):
+    if ord not in (None, 2) or keepdims:
+        raise Top("linalg.norm with ord / keepdims")
+    return alg.jnp_linalg_norm(x, axis=axis)
+
+
 def _isnan(x):
     return term('isnan', x)
 
@@ -1240,6 +1251,60 @@ def _min(*a, **k):
     return term('min', *sorted((fz(v) for v in vals), key=repr))
 
 
+def api(fn, _drop=(), **rename):
+    """adapter giving a model the keyword names of the real API: `rename` maps real keyword -> model keyword; keywords in
+    `_drop` (dtype, precision, ... - immaterial to the abstraction) are discarded"""
+    @functools.wraps(fn)
+    def w(*a, **k):
+        kk = {}
+        for key, v in k.items():
+            if key in _drop:
+                continue
+            kk[rename.get(key, key)] = v
+        return fn(*a, **kk)
+    return w
+
+
+_IMMATERIAL = ('dtype', 'out', 'precision', 'preferred_element_type', 'device', 'out_sharding', 'copy', 'order',
+               'allow_negative_indices', 'unroll', 'is_stable', 'holomorphic', 'allow_int')
+
+# real keyword name -> model keyword name, per external function (kept in sync with dev/sig_audit.py)
+_API_NAMES = {
+    'jnp': {
+        'array': dict(object='x'), 'asarray': dict(a='x'), 'stack': dict(arrays='items'), 'concatenate': dict(arrays='items'),
+        'hstack': dict(tup='items'), 'sum': dict(a='x'), 'tile': dict(A='a'), 'reshape': dict(newshape='shape'),
+        'diag': dict(v='a'), 'any': dict(a='x'), 'all': dict(a='x'), 'unravel_index': dict(indices='idx'),
+        'split': dict(ary='a', indices_or_sections='indices'), 'where': dict(condition='c', x='a', y='b'),
+        'full': dict(fill_value='value'), 'full_like': dict(fill_value='v'), 'eye': dict(N='n'),
+        'swapaxes': dict(axis1='i', axis2='j'), 'logical_and': dict(x1='a', x2='b'), 'logical_or': dict(x1='a', x2='b'),
+    },
+    'jax.lax': {
+        'fori_loop': dict(lower='lo', upper='hi', body_fun='body', init_val='init'), 'while_loop': dict(init_val='init'),
+        'select': dict(pred='c', on_true='a', on_false='b'), 'stop_gradient': dict(x='v'), 'top_k': dict(operand='x'),
+        'with_sharding_constraint': dict(shardings='s'),
+    },
+    'jax.tree_util': {'tree_reduce': dict(function='f'), 'tree_transpose': dict(outer_treedef='outer', inner_treedef='inner',
+                                                                               pytree_to_transpose='tree')},
+    'jax.tree': {'reduce': dict(function='f'), 'transpose': dict(outer_treedef='outer', inner_treedef='inner',
+                                                                 pytree_to_transpose='tree')},
+    'jax': {'grad': dict(fun='f'), 'hessian': dict(fun='f'), 'jacrev': dict(fun='f'), 'jacfwd': dict(fun='f'), 'jvp': dict(fun='f'),
+            'vmap': dict(fun='f'), 'jit': dict(fun='f'), 'value_and_grad': dict(fun='f')},
+    'eqx': {'tree_at': dict(pytree='pytree_'), 'is_array': dict(element='x'), 'is_inexact_array': dict(element='x'),
+            'partition': dict(pytree='tree', filter_spec='spec'), 'filter_jit': dict(fun='f')},
+}
+
+
+def _apply_api_names(*spaces):
+    for ns in spaces:
+        table = _API_NAMES.get(ns._name, {})
+        for name, v in list(vars(ns).items()):
+            if name.startswith('_') or isinstance(v, NS) or not callable(v) or isinstance(v, (ExternalClass, type)):
+                continue
+            if not (hasattr(v, '__code__') or hasattr(v, '__wrapped__')):
+                continue
+            setattr(ns, name, api(v, _drop=_IMMATERIAL, **table.get(name, {})))
+
+
 def make_world_externals(world_ref):
     """returns (externals, builtins) for a World"""
     isinstance_ = make_isinstance(world_ref)
@@ -1262,7 +1327,7 @@ def make_world_externals(world_ref):
              transpose=symaware('transpose', alg.jnp_transpose), diag=symaware('diag', alg.jnp_diag),
              matmul=symaware('matmul', alg.jnp_matmul), dot=symaware('dot', alg.jnp_dot),
              meshgrid=_meshgrid, linspace=_linspace,
-             linalg=NS("jnp.linalg", norm=symaware('linalg.norm', alg.jnp_linalg_norm)),
+             linalg=NS("jnp.linalg", norm=symaware('linalg.norm', _linalg_norm)),
              s_=IndexExpr(), ndarray=ExternalClass('jnp.ndarray'),
              iinfo=IInfo, int32='int32', float32='float32', float64='float64', int64='int64',
              inf=Poly.atom(('K', 'inf')), nan=Poly.atom(('K', 'nan')), pi=Poly.atom(('K', 'pi')),
@@ -1317,6 +1382,7 @@ def make_world_externals(world_ref):
     jaxtyping = NS("jaxtyping", **{k: Subscriptable(k) for k in
                                    ("Float", "Int", "Bool", "Key", "PyTree", "Num", "Shaped")})
     jaxtyping.Array = jax.Array
+    _apply_api_names(jnp, jnp.linalg, tree_util, tree, lax, random, jax, eqx, optax)
     externals = {
         'jax': jax, 'jax.numpy': jnp, 'equinox': eqx, 'optax': optax, 'typing': typing, 'jaxtyping': jaxtyping,
         'functools': NS("functools", partial=functools.partial, reduce=functools.reduce),
